@@ -435,7 +435,9 @@ def gen_exhaustive(ctx, cfg):
 def gen_walks(ctx, cfg, num, seed=None):
     with open(os.path.join(SPEC, "kvindex", cfg)) as fh:
         depth = int(re.search(r"MaxLen = (\d+)", fh.read()).group(1))
-    res = ctx.tlc("kvindex", "KVIndex", cfg, workers=8, timeout=900, simulate="num=%d" % num, depth=depth + 1,
+    # one simulation worker: the set of walks is then a function of the seed.  TLC evaluates the invariants
+    # (and so prints) on every candidate successor of a walk's last state: keep one walk per prefix
+    res = ctx.tlc("kvindex", "KVIndex", cfg, workers=1, timeout=900, simulate="num=%d" % num, depth=depth + 1,
                   seed=seed, label="random walks")
     uni = res.msgs["universe"][0]
     walks = res.msgs.get("walk", [])
@@ -446,7 +448,7 @@ def gen_walks(ctx, cfg, num, seed=None):
     behaviours = []
     for w in walks:
         h = [norm_op(o) for o in w["h"]]
-        hk = json.dumps(h, sort_keys=True)
+        hk = json.dumps(h[:-1], sort_keys=True)
         if hk in seen:
             continue
         seen.add(hk)
